@@ -87,6 +87,12 @@ func body(r *vf.Run) {
 						r.Set("child_tail", ex.Tail)
 						break
 					}
+					if !strings.Contains(ex.Tail, "stargz-snapshotter/snapshot.") && !strings.Contains(ex.Tail, "go.etcd.io/bbolt") && !strings.Contains(ex.Tail, "core/snapshots/storage") {
+						// no frame of the code under test in the dump: the harness itself failed
+						r.Inconclusive("history child died in harness code")
+						r.Set("child_tail", ex.Tail)
+						break
+					}
 					f := strings.Fields(js)
 					key := "restart:process-died"
 					if len(f) >= 2 {
@@ -212,6 +218,7 @@ func histChild(r *vf.Run) {
 		d.Close()
 		h.capture("op.boundary", true, h.nops)
 	} else {
+		verifhook.SetHandler(nil) // no images of the Close that follows a diverged history
 		d.Close()
 	}
 	verifhook.SetHandler(nil)
@@ -238,6 +245,9 @@ func firstWords(s string) string {
 
 // capture copies metadata.db and snapshots/ of the history root.
 func (h *hist) capture(point string, boundary bool, op int) {
+	if op < 0 {
+		return // a hook outside any generated operation
+	}
 	n := len(h.images)
 	dir := filepath.Join(h.imgDir, strconv.Itoa(n))
 	if err := os.MkdirAll(dir, 0o755); err != nil {
